@@ -32,6 +32,7 @@ pub fn properties_of(v: &Violation) -> Vec<&'static str> {
         .unwrap_or(false);
     match v.invariant.as_str() {
         "I1" | "I2" | "I6" => vec!["C16"],
+        "I3" if v.key.starts_with("process-crash") => vec!["C01", "C07", "C16"],
         "I3" => {
             if has_default_class {
                 vec!["C01", "C06"]
